@@ -199,6 +199,9 @@ const mintedUUID = "<uuid>"
 // a request that carries this header (it is forwarded like any other) sends its body with
 // Transfer-Encoding: chunked instead of a Content-Length
 const chunkedHeader = "X-Hx-Chunked"
+
+// a scripted answer with this body is answered with a text naming the URL that was requested
+const echoBody = "@echo-url"
 const remoteIP = "127.0.0.1"
 
 func (c RouteCase) sx() sx.V {
@@ -409,6 +412,10 @@ func (p *performer) Do(req *http.Request) (*http.Response, error) {
 	}
 	hook := p.hook
 	p.mu.Unlock()
+	if b.Body == echoBody {
+		// a resource whose content depends on the whole URL it was asked for, query included
+		b.Body = "generated for " + req.URL.String()
+	}
 	if hook != nil {
 		hook(&d, &b)
 	}
